@@ -381,6 +381,11 @@ fn run_timing(l: &[Sx]) -> Sx {
                 }
             };
             let first = conn.write_all(b"{\"method\":\"org.varlink.service.GetInfo\"}\0").is_ok() && read_reply(&mut conn);
+            if !first {
+                // never served: when did the server (or the kernel, for a connection still in the backlog
+                // when the listener went away) end it?
+                return (accepted, false, false, t0.elapsed().as_millis() as u64);
+            }
             let mut complete = first;
             let end = t0 + Duration::from_millis(at + hold);
             let now = Instant::now();
@@ -405,6 +410,84 @@ fn run_timing(l: &[Sx]) -> Sx {
     }
     let _ = std::fs::remove_file(&path);
     sx::tagged("tobs", obs)
+}
+
+/// A service started with socket activation (descriptor 3 = a filesystem unix socket bound by the
+/// harness) serves one client, runs into its idle timeout and exits: the socket path, which the service
+/// did not create, must still be there.   Observation: (aobs <served> <exited> <path-still-exists>)
+fn run_activated(l: &[Sx]) -> Sx {
+    use crate::suites::addr::world;
+    use std::os::unix::io::AsRawFd;
+    use std::os::unix::process::CommandExt;
+    let idle = l[1].as_usize().unwrap_or(1);
+    let n = COUNTER.fetch_add(1, Ordering::SeqCst);
+    let dir = format!("{}/act-{}-{}", work_dir(), std::process::id(), n);
+    let _ = std::fs::remove_dir_all(&dir);
+    std::fs::create_dir_all(&dir).unwrap();
+    let path = format!("{}/s", dir);
+    let listener = std::os::unix::net::UnixListener::bind(&path).expect("bind");
+    let spec = world::WorldSpec::plain(configs().remove(0).sx);
+    let specfile = format!("{}/spec", dir);
+    std::fs::write(&specfile, spec.to_sx().render()).unwrap();
+    let fd = listener.as_raw_fd();
+    let mut cmd = std::process::Command::new("sh");
+    cmd.arg("-c")
+        .arg("LISTEN_PID=$$ exec \"$0\" \"$@\"")
+        .arg(world::helper_path())
+        .arg("serve")
+        .arg(&specfile)
+        .arg(format!("unix:{}", path))
+        .arg("--idle")
+        .arg(format!("{}", idle))
+        .env("LISTEN_FDS", "1")
+        .env_remove("LISTEN_FDNAMES")
+        .stdin(std::process::Stdio::null());
+    unsafe {
+        cmd.pre_exec(move || {
+            let h = libc::fcntl(fd, libc::F_DUPFD, 200);
+            if h < 0 {
+                return Err(std::io::Error::last_os_error());
+            }
+            for f in 3..200 {
+                libc::close(f);
+            }
+            if libc::dup2(h, 3) < 0 {
+                return Err(std::io::Error::last_os_error());
+            }
+            libc::close(h);
+            Ok(())
+        });
+    }
+    let child = cmd.spawn().expect("spawn helper");
+    let mut guard = world::ChildGuard::new(child);
+    // one client, so that we know the activated socket is really being served
+    let served = match connect(&format!("unix:{}", path)) {
+        Some(mut c) => {
+            c.set_timeout(Duration::from_millis(4000));
+            let ok = c.write_all(b"{\"method\":\"org.varlink.service.GetInfo\"}\0").is_ok();
+            let mut got = Vec::new();
+            let mut b = [0u8; 4096];
+            while ok {
+                match c.read(&mut b) {
+                    Ok(0) | Err(_) => break,
+                    Ok(k) => {
+                        got.extend_from_slice(&b[..k]);
+                        if got.last() == Some(&0) {
+                            break;
+                        }
+                    }
+                }
+            }
+            ok && got.last() == Some(&0)
+        }
+        None => false,
+    };
+    let exited = guard.wait_timeout(Duration::from_millis(idle as u64 * 1000 + 6000)).is_some();
+    let exists = std::path::Path::new(&path).exists();
+    drop(guard);
+    drop(listener);
+    let _ = std::fs::remove_dir_all(&dir);
+    sx::tagged("aobs", vec![sx::boolean(served), sx::boolean(exited), sx::boolean(exists)])
 }
 
 fn client_sx(kind: &str, start: usize, chunks: &[Vec<u8>], total: &[u8]) -> Sx {
@@ -549,6 +632,9 @@ impl Suite for ListenSuite {
             }
             cases.push(timing_case(0, Some(450), 1, 4, &[(150, 1200), (1000, 100)], "flag-set-while-open-then-late-arrival"));
             cases.push(timing_case(2, Some(450), 2, 4, &[(150, 1200), (1000, 100)], "flag-set-while-open-then-late-arrival"));
+            cases.push(timing_case(0, Some(420), 1, 4, &[(150, 1200), (435, 100)], "arrival-inside-the-slice-after-the-flag"));
+            cases.push(timing_case(2, Some(420), 1, 4, &[(150, 1200), (435, 100)], "arrival-inside-the-slice-after-the-flag"));
+            cases.push(Case { input: sx::tagged("listen-activated", vec![sx::nat(1)]), tags: vec!["activated-socket-path-survives".into()] });
             cases.push(timing_case(0, Some(450), 1, 4, &[], "flag-only"));
             cases.push(timing_case(0, Some(0), 1, 4, &[], "flag-set-before-start"));
             cases.push(timing_case(2, Some(450), 1, 4, &[], "flag-before-timeout"));
@@ -665,6 +751,7 @@ impl Suite for ListenSuite {
         match l[0].as_atom().unwrap() {
             "listen-conc" => run_conc(l),
             "listen-timing" => run_timing(l),
+            "listen-activated" => run_activated(l),
             other => panic!("case kind {}", other),
         }
     }
